@@ -89,6 +89,11 @@ def run(ctx):
     # are only right if their search/chart really improves on the upper bound
     for nn, es in HARD:
         cases.append(from_edges(nn, es))
+    # the same graphs with an ISOLATED vertex (minor_min_width stops at a degree-0 vertex, so the global lower bound is 0 and the
+    # search is not cut short by lb == ub) and with a pendant vertex: the branch and bound has to find the optimum by itself
+    for nn, es in HARD[:4 if ctx.quick else len(HARD)]:
+        cases.append(from_edges(nn + 1, es))
+        cases.append(from_edges(nn + 1, list(es) + [(0, nn)]))
     reqs, meta = [], []
     for order0, adj in cases:
         orders = [order0]
